@@ -125,6 +125,17 @@ func (g *streamGen) container(t *rapid.T, depth int, out *[]model.Ev, kind int) 
 	}
 }
 
+// sizeScalars draws the size of a container that holds scalars only: the
+// length boundaries 127/128/255/256 must be reachable whatever the budget.
+func (g *streamGen) sizeScalars(t *rapid.T) int {
+	if rapid.IntRange(0, 24).Draw(t, "szbig") == 0 {
+		n := rapid.SampledFrom([]int{127, 128, 129, 200, 255, 256, 257, 300}).Draw(t, "szbigv")
+		g.budget -= n / 8
+		return n
+	}
+	return g.size(t)
+}
+
 func (g *streamGen) size(t *rapid.T) int {
 	w := rapid.IntRange(0, 19).Draw(t, "szw")
 	var n int
@@ -262,7 +273,7 @@ func (g *streamGen) object(t *rapid.T, depth int, out *[]model.Ev) {
 func (g *streamGen) extArray(t *rapid.T, out *[]model.Ev) {
 	g.Feat["ext"] = true
 	g.Feat["extarr"] = true
-	n := g.size(t)
+	n := g.sizeScalars(t)
 	if n == 0 {
 		g.Feat["extempty"] = true
 	}
@@ -283,7 +294,7 @@ func (g *streamGen) extArray(t *rapid.T, out *[]model.Ev) {
 func (g *streamGen) extObject(t *rapid.T, out *[]model.Ev) {
 	g.Feat["ext"] = true
 	g.Feat["extobj"] = true
-	n := g.size(t)
+	n := g.sizeScalars(t)
 	if n == 0 {
 		g.Feat["extempty"] = true
 	}
